@@ -26,12 +26,12 @@ CHECKS = {
    ref="§5 C05"),
  "C06": dict(
    technique="proptest over 10 project shapes run in sandboxed worker processes; crash/abort monitor + pass-state-digest cycle detector (hook) + output-or-diagnostic and span-validity predicates",
-   text="Generated projects (grammar programs with hostile trivia, character mutations, example-source fragments, extreme integers as directive/operator/option arguments, import graphs incl. cycles and missing files, mutually dependent segments, nested loops with edge-of-range branches, operands within a few bytes of their limit, hostile names, nesting of every kind of block, parentheses, calls and configuration maps to 6000 levels and single expressions of up to 240000 terms) go through parse, codegen as `mos build`, merge/listing/symbols, format and codegen in the language server's analysis mode inside worker sub-processes. A panic, an abnormal worker exit, a repeated pass-state digest (deterministic proof of non-termination), 'neither output nor diagnostic' or a diagnostic span outside the project is a violation.",
+   text="Generated projects (grammar programs with hostile trivia, character mutations, example-source fragments, extreme integers as directive/operator/option arguments, import graphs incl. cycles and missing files, mutually dependent segments, nested loops with edge-of-range branches, operands within a few bytes of their limit, hostile names, nesting of every kind of block, parentheses, calls and configuration maps to 6000 levels and single expressions of up to 240000 terms, macros that invoke themselves through up to 60 blocks per level, operands that compute the most negative 64-bit value) go through parse, codegen as `mos build`, merge/listing/symbols, format and codegen in the language server's analysis mode inside worker sub-processes. A panic, an abnormal worker exit, a repeated pass-state digest (deterministic proof of non-termination), 'neither output nor diagnostic' or a diagnostic span outside the project is a violation.",
    note="A watchdog kill makes the run inconclusive (exit 2) unless every thread of the worker sleeps (a deadlock, which is a violation); reaching the pass bound without a digest repeat is inconclusive, never a violation; .loop/.align/bank-size arguments above 70000 are excluded by construction (termination not decidable without a clock). The coverage-guided target of the thorough tier stays below 48 levels of nesting and 4096 bytes. Invalid UTF-8 file contents are only reachable through the CLI (covered by C04's CLI runs, not here).",
    ref="§5 C06"),
  "C12": dict(
    technique="proptest over generated programs x trivia x formatter options; metamorphic oracle between input and formatted output (parse-clean, token skeleton, comment multiset/order, bytes and diagnostics)",
-   text="Error-free generated programs with comments placed in every kind of trivia slot and random formatter options are formatted in-process; the output must parse without diagnostics, keep the token sequence (text with comments/whitespace stripped, case folded), keep every comment in order and assemble to the same segment bytes and diagnostic messages. Comments carry serial numbers so a lost comment names the slot it stood in; slots/layouts that trigger recorded findings are switched off in the clean campaign and confirmed one campaign each.",
+   text="Error-free generated programs (statements sharing a line: label + instruction, instruction or label behind an implied instruction) with comments placed in every kind of trivia slot and random formatter options are formatted in-process; the output must parse without diagnostics, keep the token sequence (text with comments/whitespace stripped, case folded), keep every comment in order and assemble to the same segment bytes and diagnostic messages. Comments carry serial numbers so a lost comment names the slot it stood in; slots/layouts that trigger recorded findings are switched off in the clean campaign and confirmed one campaign each.",
    note="In-process formatter (mos-core::formatting::format) on every file of the project; the CLI half of the property (`mos format` rewrites each file / leaves all untouched on a parse error) is checked by the CLI campaign of this check when MOS_BIN is available. Token equality is approximated by the comment/whitespace-stripped skeleton plus byte equality.",
    ref="§5 C12"),
  "C13": dict(
@@ -46,12 +46,12 @@ CHECKS = {
    ref="§5 C07"),
  "C08": dict(
    technique="proptest, metamorphic oracle: canonical rendering vs random trivia/case rendering of the same AST must give equal bytes, symbols and diagnostic messages",
-   text="Each generated program is rendered twice from the same AST: canonically and with random trivia in every slot the grammar allows (spaces, tabs, block/line/nested/multi-line/non-ASCII comments containing code-like text, blank lines, CRLF) and random letter case of mnemonics, directives, registers, hex digits, as/from/else, encodings and true/false; segment bytes, the symbol table and the sorted diagnostic messages must be equal.",
+   text="Each generated program is rendered twice from the same AST: canonically and with random trivia in every slot the grammar allows (spaces, tabs, block/line/nested/multi-line/non-ASCII comments containing code-like text, blank lines, CRLF) and random letter case of mnemonics, directives, registers, hex digits, as/from/else, encodings and true/false (upper and mixed case; the literals 0 and 1 are written as keywords in half of their places); segment bytes, the symbol table and the sorted diagnostic messages must be equal.",
    note="The slot catalogue is the renderer's (gen/ast.rs), derived from the grammar; slots where the grammar allows no trivia are never filled.",
    ref="§5 C08"),
  "C11": dict(
    technique="proptest over assembling generator programs x bytes-per-line x attribution mode; oracle = reference layout model's (statement, value) -> address-range relation; listing text parsed back (round trip against the image)",
-   text="For generated programs that assemble, the source map's address ranges must equal the reference walk's emission sites, each entry's span must lie inside the renderer-recorded source range of the statement/value that emitted it (or an enclosing macro invocation in listing mode), address lookup must return that entry, and the `.lst` text produced by to_listing, parsed back, must show every source line once and in order, rows whose bytes are the image bytes at the row's address, per-line bytes in emission order and every emitted byte exactly once.",
+   text="For generated programs that assemble (a third of those with explicit segments end in a segment whose last byte lies at $FFFF), the source map's address ranges must equal the reference walk's emission sites, each entry's span must lie inside the renderer-recorded source range of the statement/value that emitted it (or an enclosing macro invocation in listing mode), address lookup must return that entry, and the `.lst` text produced by to_listing, parsed back, must show every source line once and in order, rows whose bytes are the image bytes at the row's address, per-line bytes in emission order and every emitted byte exactly once.",
    note="In-process (CodegenContext::source_map, io::to_listing); the file naming of `mos build` listings is covered by C10. Lookup and row-address checks are skipped for programs whose segments overlap in target addresses (the source map carries no segment identity).",
    ref="§5 C11"),
  "C04": dict(
@@ -71,7 +71,7 @@ CHECKS = {
    ref="§5 C10"),
  "C18": dict(
    technique="proptest over generated test programs; differential oracle: independent 6502 interpreter + assertion evaluator (self-tested against emulator_6502) vs `mos test` output and exit status",
-   text="Generated projects with 1-3 `.test` blocks (loops, nested loops, forward branches, subroutines, scopes, stack use, indexed/indirect memory, optionally two banks) get assertions chosen from a reference execution trace to be true, false, unevaluable or dependent on a later visit; the reference interpreter runs the model-derived image of the test's bank, evaluates every assertion at every visit and predicts verdict, failing assertion location and message for each test; `mos test` must print the matching verdict line per test, exit non-zero iff a test fails and report each failure at the assertion's file:line:column with the expected message.",
+   text="Generated projects with 1-3 `.test` blocks (loops, nested loops, forward branches, subroutines in the test's segment or in a library segment of its bank, scopes, stack use, indexed/indirect memory, optionally two banks) get assertions chosen from a reference execution trace to be true, false, unevaluable or dependent on a later visit; the reference interpreter runs the model-derived image of the test's bank, evaluates every assertion at every visit and predicts verdict, failing assertion location and message for each test; `mos test` must print the matching verdict line per test, exit non-zero iff a test fails and report each failure at the assertion's file:line:column with the expected message.",
    note="The modelled instruction subset excludes decimal mode, jmp (ind), brk/rti as instructions and txs; programs are constructed to terminate. Flag symbols are only used for their truth value. The reference interpreter's self test (300 random programs against emulator_6502) runs before every campaign; its failure is exit 2, not a violation.",
    ref="§5 C18"),
  "C17": dict(
